@@ -55,6 +55,24 @@ var c01Pairs = []c01Pair{
 	{"grouping with list, choice, action and notification",
 		`grouping g { list l { key "k"; MINMAX leaf k { type string; } } choice ch { case x { leaf x1 { type string; CFG1 } } } action act { input { leaf i { type string; } } } notification nt { leaf e { type string; } } } container c { CFG3 uses g; }`,
 		`container c { CFG3 list l { key "k"; MINMAX leaf k { type string; } } choice ch { case x { leaf x1 { type string; CFG1 } } } action act { input { leaf i { type string; } } } notification nt { leaf e { type string; } } }`},
+	{"grouping states config, one of two copies refines it",
+		`grouping g { leaf a { type string; config true; } container in { config true; leaf b { type int32; } } } container c1 { uses g { refine a { config false; } refine in { config false; } } } container c2 { CFG3 uses g; } container c3 { uses g { refine a { description "r3"; MAND } } }`,
+		`container c1 { leaf a { type string; config false; } container in { config false; leaf b { type int32; } } } container c2 { CFG3 leaf a { type string; config true; } container in { config true; leaf b { type int32; } } } container c3 { leaf a { type string; config true; description "r3"; MAND } container in { config true; leaf b { type int32; } } }`},
+	{"grouping states mandatory and min/max, copies refine them differently",
+		`grouping g { leaf a { type string; mandatory true; } leaf-list ll { type string; min-elements 1; max-elements 5; } } container c1 { uses g { refine a { mandatory false; } refine ll { min-elements 2; } } } container c2 { uses g; } container c3 { uses g { refine ll { max-elements 3; } } }`,
+		`container c1 { leaf a { type string; mandatory false; } leaf-list ll { type string; min-elements 2; max-elements 5; } } container c2 { leaf a { type string; mandatory true; } leaf-list ll { type string; min-elements 1; max-elements 5; } } container c3 { leaf a { type string; mandatory true; } leaf-list ll { type string; min-elements 1; max-elements 3; } }`},
+	{"submodule that includes another submodule",
+		`container c { CFG3 uses deepg; leaf z { type string; CFG1 } }`,
+		`container c { CFG3 leaf dg { type string; } leaf z { type string; CFG1 } }`},
+	{"local grouping wrapping an imported grouping of the same name",
+		`grouping og { container wrap { CFG2 uses o:og; } leaf mine { type string; CFG1 } } container c { CFG3 uses og; }`,
+		`container c { CFG3 container wrap { CFG2 leaf oa { type string; } container oin { leaf ob { type uint8; } } } leaf mine { type string; CFG1 } }`},
+	{"grouping from a submodule wrapping an imported grouping of the same name",
+		`container c { CFG3 uses o:og; container w { CFG2 uses subg; } }`,
+		`container c { CFG3 leaf oa { type string; } container oin { leaf ob { type uint8; } } container w { CFG2 leaf sg { type string; } } }`},
+	{"grouping used inside itself through a different grouping (no recursion)",
+		`grouping inner { leaf a { type string; CFG1 } } grouping outer { container x { uses inner; } container y { CFG2 uses inner; } } container c { CFG3 uses outer; uses inner; }`,
+		`container c { CFG3 container x { leaf a { type string; CFG1 } } container y { CFG2 leaf a { type string; CFG1 } } leaf a { type string; CFG1 } }`},
 	{"uses under if-feature and when",
 		`grouping g { leaf a { type string; CFG1 } } container c { CFG3 uses g { if-feature "f1"; when "z='1'"; } leaf z { type string; } }`,
 		`container c { CFG3 leaf a { type string; CFG1 when "z='1'"; } leaf z { type string; } }`},
@@ -65,7 +83,9 @@ func c01Opener(name string, ext string) (io.Reader, error) {
 	case "other":
 		return &c14Reader{s: `module other { namespace "o"; prefix o; grouping og { leaf oa { type string; } container oin { leaf ob { type uint8; } } } }`, failAt: -1}, nil
 	case "sub":
-		return &c14Reader{s: `submodule sub { belongs-to m { prefix p; } grouping subg { leaf sg { type string; } } container fromsub { leaf s { type string; } } }`, failAt: -1}, nil
+		return &c14Reader{s: `submodule sub { belongs-to m { prefix p; } include deep; grouping subg { leaf sg { type string; } } container fromsub { leaf s { type string; } } }`, failAt: -1}, nil
+	case "deep":
+		return &c14Reader{s: `submodule deep { belongs-to m { prefix p; } grouping deepg { leaf dg { type string; } } container fromdeep { leaf d { type string; } } augment "/p:fromsub" { leaf addedbydeep { type string; } } }`, failAt: -1}, nil
 	}
 	return nil, nil
 }
